@@ -12,7 +12,7 @@ import json, os, re, time
 from common import *
 import findings
 
-FILES = ["Wire.tla", "MC_Wire.tla", "TraceWire.tla", "Mapper.tla", "MC_Mapper.tla", "TraceMapper.tla"]
+FILES = ["Wire.tla", "MC_Wire.tla", "TraceWire.tla", "Mapper.tla", "MC_Mapper.tla", "TraceMapper.tla", "MC_Gen.tla", "TraceGen.tla"]
 
 
 def tlc_cases(tier, asserts, tag="mcw", base="MC_Wire"):
@@ -80,8 +80,14 @@ def run_wire(vh, cases, name="wire", trace_spec="TraceWire.tla"):
         g, d = tlc_stats(out)
         mism = tlc_prints(out, "MISMATCH")
         return {"mismatches": mism, "states": d, "transitions": g, "events": uniq, "crashes": crashes,
-                "cases": [{"mismatch": m, "wire": cases[m["detail"]["id"]]} for m in mism if "id" in m.get("detail", {})] +
-                         [{"mismatch": m, "wire": None} for m in mism if "id" not in m.get("detail", {})]}
+                "cases": [{"mismatch": m, "wire": cases[case_id(m)] if case_id(m) is not None else None} for m in mism]}
+
+
+def case_id(m):
+    d = m.get("detail", {})
+    if "id" in d:
+        return d["id"]
+    return d.get("key", {}).get("id")
 
 
 def shard_run(vh, cases, n=None, trace_spec="TraceWire.tla"):
@@ -219,4 +225,43 @@ def run_c09(prop, tier):
     write_evidence(prop, tier, "model_checking", cov, time.time() - t0, violations=len(verdict["violations"]),
                    assumptions=["NewRow without a field list leaves out columns holding the zero value; read into a fresh model that is the same value",
                                 "non-finite reals are excluded by the property"])
+    return verdict
+
+
+def run_c20(prop, tier):
+    """C20: MC_Gen.tla builds schemas over Mapper.tla's type space (plus enum columns of every atomic type, awkward column and
+    table names) and states the Go type of every field (NativeType); the generator runs twice per (schema, extended, enum types),
+    the output is built in a scratch module against /repo, loaded through NewDatabaseModel and probed by reflection; the generated
+    DeepCopy / Equals are compared with model.Clone / model.Equal; TraceGen.tla judges."""
+    t0 = time.time()
+    vh = build_vh()
+    base, wall = tlc_cases(tier, ["TypeLaws", "EmitGen(0)"], tag="mcg", base="MC_Gen")
+    cases = []
+    for c in base:
+        for ext in (False, True):
+            for en in (True, False):
+                cases.append(dict(c, extended=ext, enumTypes=en))
+    res = shard_run(vh, cases, n=min(NCPU, len(cases)), trace_spec="TraceGen.tla")
+    allc = [c for r in res for c in r["cases"] if c["mismatch"].get("prop") == "C20"]
+    for c in allc:
+        w = c.get("wire") or {}
+        c["key"] = {"schema": w.get("id"), "extended": w.get("extended"), "enumTypes": w.get("enumTypes")}
+        if c.get("wire"):
+            c["wire"] = {k: v for k, v in w.items()}
+    verdict = findings.adjudicate(prop, allc, confirm_fn(vh, "TraceGen.tla"))
+    evs = [ev for r in res for ev in r["events"]]
+    cov = {"states": sum(r["states"] for r in res), "transitions": sum(r["transitions"] for r in res), "traces_validated_against_impl": len(res),
+           "schemas": len(base), "generator_runs": 2 * len(evs), "packages_built": sum(1 for e in evs if e.get("builds")),
+           "tables": sum(len(c["tables"]) for c in base), "columns": sum(len(t) for c in base for t in c["tables"].values()),
+           "fields_type_checked": sum(len(t) for e in evs for t in e.get("fieldTypes", {}).values()),
+           "samples": [{"schema": e["id"], "extended": e["extended"], "enumTypes": e["enumTypes"], "builds": e["builds"], "validates": e["validates"], "laws": e["laws"]} for e in evs[:3]],
+           "known_findings_seen": verdict["known"],
+           "rule": "schemas: every column type of Mapper.tla (each atomic type as key with 1..1, 0..1, 0..n, 1..n and bounded shapes; maps; string, integer, real and "
+                   "boolean enums, optional and multi-valued) spread over tables with underscores, lower-case and initialism names, columns named like Go keywords; "
+                   "per (schema, extended, enum types): two generator runs byte-identical, go build of the package, NewDatabaseModel(schema, FullDatabaseModel()) "
+                   "valid, every field's reflect type = NativeType(column), DeepCopy equal / no shared memory / agrees with model.Clone, Equals agrees with "
+                   "model.Equal on equal models, models differing in one field, zero against filled and nil against empty collections"}
+    write_evidence(prop, tier, "model_checking", cov, time.time() - t0, violations=len(verdict["violations"]),
+                   assumptions=["'compiles' and 'identical from run to run' are direct observations; the specification contributes the schema space, the expected field types and the laws",
+                                "the generator is driven through the modelgen package API (the command line tool has no switch for enum types)"])
     return verdict
